@@ -39,12 +39,11 @@ func (s *SearchParams) init(query string) {
 			continue
 		}
 		kv := strings.SplitN(q, "=", 2)
-		name := s.url.parser.DecodePercentEncoded(kv[0])
-		name = strings.ReplaceAll(name, "+", " ")
+		// application/x-www-form-urlencoded: replace '+' by space first, then percent-decode (so that %2B stays a plus)
+		name := s.url.parser.DecodePercentEncoded(strings.ReplaceAll(kv[0], "+", " "))
 		nvp := &NameValuePair{Name: name}
 		if len(kv) == 2 {
-			value := s.url.parser.DecodePercentEncoded(kv[1])
-			value = strings.ReplaceAll(value, "+", " ")
+			value := s.url.parser.DecodePercentEncoded(strings.ReplaceAll(kv[1], "+", " "))
 			nvp.Value = value
 		}
 		s.params = append(s.params, nvp)
